@@ -1,5 +1,6 @@
 import Fundraising.Generated.Code.Server
 import Fundraising.Proofs.Tie.Msgs
+import Fundraising.Proofs.Tie.MsgsCreate
 import Fundraising.Proofs.Tie.Bids
 import Fundraising.Proofs.Tie.Auctions
 import Fundraising.Proofs.Tie.Creates
